@@ -77,7 +77,7 @@ def attach_monitors():
 def plan(tier):
     return [('history', _PER[tier]),
             ('cache-option', 3 if tier == 'quick' else 40),
-            ('default-output-name', 2 if tier == 'quick' else 10)]
+            ('default-output-name', 4 if tier == 'quick' else 16)]
 
 
 def run_default_name(case, ctx, out):
@@ -94,6 +94,29 @@ def run_default_name(case, ctx, out):
     inp = os.path.join(ctx.workdir.path, name)
     with open(inp, 'w', encoding='utf-8', newline='') as fil:
         fil.write(text)
+    # the output name may also reach the input through another directory
+    # entry: a symbolic or a hard link standing where the output will go
+    link = None
+    if case.index % 2 == 1:
+        link = ['symlink', 'hardlink'][(case.index // 2) % 2]
+        if case.index >= 4:
+            link = rng.choice(['symlink', 'hardlink'])
+        os.remove(inp)
+        # (a deck that certainly converts: the question is what gets written)
+        plain = gen_cells.build(rng, rng.choice(['inter', 'partition',
+                                                 'nested']))
+        text, opts, kind = M.render(plain), list(plain.cli), 'cells'
+        name = rng.choice(['model.inp', 'model', 'deck.imcnp'])
+        inp = os.path.join(ctx.workdir.path, name)
+        with open(inp, 'w', encoding='utf-8', newline='') as fil:
+            fil.write(text)
+        explicit = rng.random() < 0.5
+        target = os.path.join(ctx.workdir.path, 'result.t4' if explicit else
+                              os.path.splitext(name)[0] + '.t4')
+        (os.symlink if link == 'symlink' else os.link)(inp, target)
+        if explicit:
+            opts = ['-o', target] + list(opts)
+        name = f'{name} with a {link} as output'
     before = set(os.listdir(ctx.workdir.path))
     err = None
     try:
@@ -111,7 +134,8 @@ def run_default_name(case, ctx, out):
     if not same:
         out.violation('input-modified', f'input file {name!r} converted '
                       f'without -o was overwritten (outcome: {err})')
-    for fname in set(os.listdir(ctx.workdir.path)) - before | {name}:
+    out.tags.add(f'output-alias.{link}')
+    for fname in set(os.listdir(ctx.workdir.path)):
         path = os.path.join(ctx.workdir.path, fname)
         if os.path.isfile(path):
             os.remove(path)
